@@ -249,6 +249,21 @@ for cont in (True, False):
             got = r.read_vector_raw(S + g, e - b, 'ch').reshape(e - b, nsub)
             if not np.array_equal(got, data[b:e]): print('cont=%%s nsub=%%d: block at +%%d reads back %%s..., written %%s...' %% (cont, nsub, g, got[0], data[b])); bad = 1
         shutil.rmtree(top)
+        # rf_write: the value returned (and the counters derived from it) is the library's cursor, also for zero-length writes
+        top = tempfile.mkdtemp(); os.makedirs(top + '/ch')
+        w = drf.DigitalRFWriter(top + '/ch', 'i4', 3600, 1000, S, 100, 1, 'u', is_complex=False, num_subchannels=nsub, is_continuous=cont, marching_periods=False)
+        seq = []
+        try:
+            seq.append(w.rf_write(np.zeros((10, nsub), dtype='i4')))
+            seq.append(w.rf_write(np.zeros((0, nsub), dtype='i4'), next_sample=100))
+            c1 = (w.get_next_available_sample(), w.get_total_samples_written(), w.get_total_gap_samples())
+            seq.append(w.rf_write(np.ones((5, nsub), dtype='i4'), next_sample=50))
+            c2 = (w.get_next_available_sample(), w.get_total_samples_written(), w.get_total_gap_samples())
+            if seq != [10, 10, 55] or c1 != (10, 10, 0) or c2 != (55, 15, 40):
+                print('cont=%%s nsub=%%d: rf_write returned %%s, counters %%s then %%s; the recording has next sample 10 / 55' %% (cont, nsub, seq, c1, c2)); bad = 1
+        except Exception as e:
+            print('cont=%%s nsub=%%d: rf_write sequence raised %%s: %%s (returns so far %%s)' %% (cont, nsub, type(e).__name__, e, seq)); bad = 1
+        w.close(); shutil.rmtree(top)
 sys.exit(1 if bad else 0)
 '''
 
